@@ -28,6 +28,27 @@ def generate(rng: random.Random, profile: Optional[Dict[str, Any]] = None) -> Di
     profile = profile or {}
     kind = profile.get("kind") or rng.choice(["skip", "ignore", "ignore", "direct", "direct"])
     corp = gen.corpus()
+    if kind == "preserve":
+        # C08, within-file clause: format_code(x, preserve=P) keeps every definition named in P
+        from . import e3_profiles as P
+
+        for _ in range(30):
+            if rng.random() < 0.5:
+                x = gen.pick_input(rng, corp)
+            else:
+                t = P.gen_preserve_tree(rng)
+                x = t["files"][t["libs"][0]["rel"]]
+            defs = P._defs(x)
+            tops = sorted(n for n in defs if "." not in n)
+            if tops and "skip_file" not in x:
+                break
+        pres = sorted(rng.sample(tops, rng.randint(1, min(4, len(tops))))) if tops else []
+        # members of preserved classes, in the 'Class.member' form format_code documents for safe mode
+        for n in list(pres):
+            members = [m for m in defs if m.startswith(n + ".") and defs[m] == "method"]
+            if members and rng.random() < 0.5:
+                pres.append(rng.choice(members))
+        return {"engine": "e5", "kind": "preserve", "x": x, "preserve": pres, "safe": False, "keep_imports": rng.random() < 0.2}
     if kind == "skip":
         x = gen.pick_input(rng, corp)
         lines = x.split("\n")
@@ -153,6 +174,31 @@ def execute(case: Dict[str, Any]) -> Dict[str, Any]:
             # print() appends one newline to every stdin-mode answer: framing, applied uniformly
             if echoed is not None and echoed not in (x, x + "\n"):
                 violations.append({"class": "skip-file-changed-by-stdin-mode", "detail": "stdin mode did not echo a skip_file text unchanged", "props": ["C20"]})
+    elif kind == "preserve":
+        from . import e3_profiles as P
+
+        before = P._defs(x)
+        try:
+            out = pyrefact.format_code(x, preserve=frozenset(case["preserve"]), keep_imports=case["keep_imports"])
+        except Exception:  # noqa: BLE001
+            out = None
+            stats.inc("observed.format_code_raised")
+        if out is not None and before:
+            after = P._defs(out, loose=True)
+            if out != x:
+                stats.inc("preserve.inputs_that_changed")
+            for name in case["preserve"]:
+                if name not in before:
+                    continue
+                if "." in name and name.split(".")[0] not in case["preserve"]:
+                    continue
+                stats.inc("preserve.definitions_checked")
+                if after.get(name) != before[name]:
+                    violations.append({
+                        "class": "preserved-definition-lost-within-file",
+                        "detail": f"format_code(x, preserve={case['preserve']}): {before[name]} {name} was {'deleted or renamed' if name not in after else 'turned into a ' + after[name]}",
+                        "props": ["C08"],
+                    })
     elif kind == "ignore":
         lines = _ignored_lines(x)
         # call-site attribution for the known finding K2: processing.remove_nodes (the removal
@@ -277,7 +323,7 @@ def execute(case: Dict[str, Any]) -> Dict[str, Any]:
     return {
         "violations": violations, "violation": violations[0] if violations else None,
         "digest": log.digest(), "stats": dict(stats),
-        "signatures": [(sig, kind != "ignore" or stats.get("ignore.inputs_that_changed", 0) > 0)],
+        "signatures": [(sig + "|" + ",".join(case.get("preserve", []))[:40], (kind not in ("ignore", "preserve")) or stats.get("ignore.inputs_that_changed", 0) > 0 or stats.get("preserve.inputs_that_changed", 0) > 0)],
         "evaluations": 1, "log": log.lines() if violations else None,
     }
 
@@ -317,3 +363,4 @@ COMPONENTS = {
 
 def props_of(v: Dict[str, Any]) -> List[str]:
     return v.get("props", ["C20"])
+
